@@ -677,7 +677,7 @@ PROPS = {
         "assumptions": ["reading back through a record is proved for the accessor applied to the encoded name (C03 accessors + reads_back); installing the name in a packet is covered by C08's correspondence"],
     },
     "C15": {
-        "module": "DnsModel.Theorems.C15", "theorems": ["Dns.C15.layout", "Dns.C15.classified"],
+        "module": "DnsModel.Theorems.C15", "theorems": ["Dns.C15.layout", "Dns.C15.classified", "Dns.C15.name_fits", "Dns.C15.ip_len", "Dns.C15.raw_packet_fits", "Dns.C15.joinText_length"],
         "families": [{"name": "cabi", "quick": 1200, "thorough": 40000}, {"name": "cabic", "quick": 1200, "thorough": 40000}],
         "oracle": oracle_c15, "nontrivial": lambda c, a: " act=" in a or "ret=" in a, "shrink": False,
         "rule": "hook scripts over accepted packets: address accessors on every A/AAAA record, 1-5 further table calls (getters/setters, section callbacks acting on the k-th record: name/type/class/ttl/set ttl/set raw name/set name with zone/delete/delete twice, add to three sections, raw-packet copy-out with capacities 0/len-1/len/8192, question, rename, name conversion) under the table's preconditions; each script is run through the Rust table and through a C driver compiled against c_hook.h with -Wall -Werror, canaries around all caller buffers",
@@ -685,7 +685,7 @@ PROPS = {
     },
     "C16": {
         "module": "DnsModel.Theorems.C16", "theorems": ["Dns.C16.private_slot", "Dns.C16.other_threads_commute", "Dns.C16.read_preserves"],
-        "families": [{"name": "errslots-exhaustive", "quick": 0, "thorough": 0, "fixed": True}, {"name": "errslots", "quick": 300, "thorough": 5000}],
+        "families": [{"name": "errslots-many", "quick": 0, "thorough": 0, "fixed": True}, {"name": "errslots-exhaustive", "quick": 0, "thorough": 0, "fixed": True}, {"name": "errslots", "quick": 300, "thorough": 5000}],
         "oracle": oracle_c16, "nontrivial": lambda c, a: "f" in c, "shrink": False,
         "rule": "all 20 interleavings of 2 threads x 3 steps x 36 assignments of step kinds (exhaustive), plus sampled 3- and 4-thread schedules; real threads stepped in the scripted global order",
         "level": "proof", "explanation": "", "assumptions": ["thread_local! gives each thread its own cell (what the schedules probe)"],
@@ -773,7 +773,7 @@ MANIFEST_TEXT = {
             "note": NOTE + " chomp1 combinator semantics read from the vendored source; Ipv6Addr::from_str modelled.", "technique": "Lean 4 proof (token-level iff lemmas for every parser of the recogniser, grammar relation, piece/assembly lemmas for insertion) + model/implementation correspondence + reference synthesiser oracle"},
     "C14": {"text": "Lean theorems for all byte strings and zones: the index-based loop of copy_raw_name_from_str is a left-to-right scan; it accepts exactly dot-separated labels of 1..62 dot-free bytes <= 128 (optional final dot; '.' and '' give the root) whose result fits 253 bytes (so every LDH/underscore name within the limits), returns the length-prefixed encoding of exactly those labels followed by 0 or the zone, rejects an empty label, a leading dot, a dot-free run of 63+, a text or result over 253; the result is a valid pointer-free name (labels 1..63, total <= 255) and the name accessor's text for it is the input without its final dot. Real conversion compared with the model exhaustively over a 7-symbol alphabet up to length 4 (quick) / 6 (thorough) with and without zone, boundary lengths; every accepted name is given to a record and read back.",
             "note": NOTE, "technique": "Lean 4 proof (loop = scan refinement, scan soundness/completeness by induction) + exhaustive small-alphabet correspondence + label oracle"},
-    "C15": {"text": "Proved on data regenerated from c_abi.rs and c_hook.h on every run: the table's order, count (30) and ABI-class signatures agree with the header and the initialiser follows declaration order. Facade behaviour: hook scripts run through the Rust table and through a C driver compiled against the shipped header (-Wall -Werror), with canaries around caller buffers; transcripts must equal each other and the model's (which is the native semantics).",
+    "C15": {"text": "Proved on data regenerated from c_abi.rs and c_hook.h on every run: the table's order, count (30) and ABI-class signatures agree with the header and the initialiser follows declaration order. Facade behaviour: hook scripts run through the Rust table and through a C driver compiled against the shipped header (-Wall -Werror), with canaries around caller buffers; transcripts must equal each other and the model's (which is the native semantics). Proved on the model of the wrappers: on accepted packets a record's name fits the 256-byte buffer with its NUL (the length assertion cannot fire), an address copy-out is exactly 4 or 16 bytes, the raw-packet copy-out never exceeds the stated capacity.",
             "note": NOTE + " Memory safety of the unsafe blocks is observed (canaries), not verified.", "technique": "Lean decide on translated tables + three-way correspondence (C driver / Rust table / model)"},
     "C16": {"text": "Per-thread slot model with the theorem that a read returns the thread's own last failure for every history; real threads stepped through all 2x3 interleavings x step kinds and sampled 3-4 thread schedules.",
             "note": NOTE + " thread_local! semantics assumed, probed by the schedules.", "technique": "Lean proof by induction on histories + exhaustive schedule correspondence"},
